@@ -37,7 +37,7 @@ pub fn build_cli() -> Result<(), String> {
     Ok(())
 }
 
-fn case_dir() -> PathBuf {
+pub fn case_dir() -> PathBuf {
     let n = COUNTER.fetch_add(1, Ordering::Relaxed);
     let d = root().join("harness/target/scratch").join(format!("{}", std::process::id())).join(format!("c20-{}", n));
     let _ = std::fs::create_dir_all(&d);
@@ -94,7 +94,7 @@ pub fn run_cli_stdin<S: AsRef<std::ffi::OsStr>>(args: &[S], cwd: &Path, stdin: O
     Ok(Proc { code: out.status.code(), stdout: String::from_utf8_lossy(&out.stdout).to_string(), stderr: String::from_utf8_lossy(&out.stderr).to_string(), timed_out })
 }
 
-fn hex_text(bytes: &[u8], style: u8) -> String {
+pub fn hex_text(bytes: &[u8], style: u8) -> String {
     if (style >> 1) & 7 >= 6 {
         // whitespace may fall anywhere, also between the two digits of a byte
         let plain: String = bytes.iter().map(|b| format!("{:02x}", b)).collect();
@@ -878,7 +878,7 @@ fn s_info(_: Tier) -> BoxedStrategy<InfoInput> {
 }
 
 /// All sub-checks need the binary: build it once per process before the first evaluation.
-fn ensure_built() -> Result<(), String> {
+pub fn ensure_built() -> Result<(), String> {
     use std::sync::OnceLock;
     static BUILT: OnceLock<Result<(), String>> = OnceLock::new();
     BUILT.get_or_init(build_cli).clone()
